@@ -8,6 +8,7 @@ import (
 	"reflect"
 	"strings"
 	"sync"
+	"time"
 	"unicode"
 
 	"github.com/uhn/ggql/pkg/ggql"
@@ -66,7 +67,7 @@ type Harness struct {
 	objs    map[int]interface{}
 	ptrNode map[interface{}]*model.Node
 	rtypes  map[string]reflect.Type
-	rtypes2 map[string]reflect.Type // second, unregistered Go type of some object types (fields in another order)
+	rtypes2 map[string]reflect.Type      // second, unregistered Go type of some object types (fields in another order)
 	renamed map[string]map[string]string // GraphQL type -> field -> Go field name bound with RegisterField
 	regID   int64                        // key of this harness in the hydration registry (0: not registered)
 	rootObj interface{}
@@ -341,6 +342,11 @@ func (h *Harness) conv(v interface{}, owner *model.Node, nth int) interface{} {
 		}
 		accessor := h.ListMode == 1 || (h.ListMode == 2 && owner.ID%2 == 0) || nth >= 0
 		if !accessor {
+			if ts := basicTypedSlice(items); ts != nil && (owner.ID+len(items))%3 == 0 {
+				// a homogeneous leaf list held as a typed Go slice of a basic kind ([]string, []int64, ...): ggql walks these
+				// itself under every strategy, a root resolver never has to know them
+				return ts
+			}
 			return items
 		}
 		if nth < 0 && owner.ID%3 == 1 && len(t) > 0 {
@@ -519,6 +525,12 @@ func (a *anyRes) Len(list interface{}) int {
 	}
 	if l, isL := list.(AnyRefList); isL {
 		return len(l)
+	}
+	switch list.(type) {
+	case []string, []int, []int64, []bool, []float32, []float64, []time.Time:
+		// slices ggql walks itself under every strategy (documented dispatch order): an application's root resolver is
+		// written for its own list types and answers "not a list of mine" for these
+		return 0
 	}
 	rv := reflect.ValueOf(list)
 	if rv.Kind() == reflect.Slice {
@@ -771,4 +783,28 @@ func (h *Harness) register() error {
 		}
 	}
 	return nil
+}
+
+// basicTypedSlice turns a non-empty list whose elements all have the same basic Go type (string, int, int64, bool,
+// float32, float64, time.Time) into a typed slice of that type; nil otherwise.
+func basicTypedSlice(items []interface{}) interface{} {
+	if len(items) == 0 {
+		return nil
+	}
+	switch items[0].(type) {
+	case string, int, int64, bool, float32, float64, time.Time:
+	default:
+		return nil
+	}
+	rt := reflect.TypeOf(items[0])
+	for _, e := range items {
+		if e == nil || reflect.TypeOf(e) != rt {
+			return nil
+		}
+	}
+	out := reflect.MakeSlice(reflect.SliceOf(rt), len(items), len(items))
+	for i, e := range items {
+		out.Index(i).Set(reflect.ValueOf(e))
+	}
+	return out.Interface()
 }
